@@ -9,6 +9,7 @@ import (
 	"sync/atomic"
 
 	ledger "github.com/formancehq/ledger/internal"
+	storagecommon "github.com/formancehq/ledger/internal/storage/common"
 	"github.com/formancehq/ledger/verifh/ev"
 	"github.com/formancehq/ledger/verifh/lx"
 	"github.com/formancehq/ledger/verifh/world"
@@ -319,4 +320,156 @@ func ReplayRenumbered(want string, c RenumberedCase, n int) ([][2]string, error)
 		out = append(out, [2]string{v.Sig, v.What})
 	}
 	return out, nil
+}
+
+// ---------- C14: a reference reused through the import path ----------
+
+// ReusedReferenceImports is the sequential part of C14: the import is the one write path on
+// which the CLIENT chooses the transaction id. The export of a history of four transactions
+// carrying the references r1, r2, "" and r4 is re-sent with the reference of transaction k
+// replaced by the reference of an earlier transaction j (every pair j<k, and every k given
+// its own reference again as the control), hashes re-chained in stream order, into an empty
+// ledger (HASH_LOGS SYNC and DISABLED). Oracle: the import stops AT log k with an error that
+// is a reference conflict (errors.Is ErrTransactionReferenceConflict), the logs before k stay,
+// nothing of log k or after is stored, and no reference is carried by two transactions.
+func ReusedReferenceImports() func(r *ev.Run) (map[string]any, bool) {
+	return func(r *ev.Run) (map[string]any, bool) {
+		ctx := context.Background()
+		restore := quietStdout()
+		defer restore()
+		pg, err := bootLedgers(ctx, renumberLedgers())
+		if err != nil {
+			r.EngineError("C14 reused-reference imports: " + err.Error())
+			return nil, false
+		}
+		w := world.Attach(pg)
+		defer w.Close()
+		c, err := w.Sys.GetLedgerController(ctx, "src")
+		if err != nil {
+			r.EngineError("C14 reused-reference imports: " + err.Error())
+			return nil, false
+		}
+		p := func(s, d, a, n string) lx.P { return lx.P{Src: s, Dst: d, Ast: a, Amt: n} }
+		refs := []string{"r1", "r2", "", "r4"}
+		for i, ref := range refs {
+			op := lx.Op{Kind: "post", Name: fmt.Sprintf("tx%d", i+1), Postings: []lx.P{p("world", "a", "USD", fmt.Sprint(i+1))}, Ref: ref}
+			if out := lx.Apply(ctx, c, op); !out.OK() {
+				r.EngineError(fmt.Sprintf("C14 reused-reference imports: source history: %v", out.Err))
+				return nil, false
+			}
+		}
+		src, err := exportLogs(ctx, c)
+		if err != nil || len(src) != len(refs) {
+			r.EngineError(fmt.Sprintf("C14 reused-reference imports: export: %d logs, %v", len(src), err))
+			return nil, false
+		}
+		type rcase struct {
+			Hashing string `json:"hashing"`
+			K       int    `json:"k"` // 0-based index of the log whose reference is replaced
+			J       int    `json:"j"` // index of the log whose reference it takes (J==K: control)
+		}
+		var cases []rcase
+		for _, h := range []string{"SYNC", "DISABLED"} {
+			for k := 0; k < len(refs); k++ {
+				for j := 0; j <= k; j++ {
+					if j < k && refs[j] == "" {
+						continue // the empty reference may be shared
+					}
+					cases = append(cases, rcase{h, k, j})
+				}
+			}
+		}
+		var conflicts, controls atomic.Int64
+		complete := parallel(r, len(cases), func(i int) {
+			cs := cases[i]
+			stream := make([]ledger.Log, len(src))
+			var prev *ledger.Log
+			for n := range src {
+				l := src[n]
+				if n == cs.K {
+					ct := l.Data.(ledger.CreatedTransaction)
+					tx := ct.Transaction
+					tx.Reference = refs[cs.J]
+					ct.Transaction = tx
+					l.Data = ct
+				}
+				l.Hash = nil
+				l.ComputeHash(prev)
+				stream[n] = l
+				prev = &stream[n]
+			}
+			pgc := pg.Clone()
+			wc := world.Attach(pgc)
+			defer wc.Close()
+			dstName := "dst-" + cs.Hashing
+			dst, err := wc.Sys.GetLedgerController(ctx, dstName)
+			if err != nil {
+				r.EngineError(err.Error())
+				return
+			}
+			ierr := importLogs(ctx, dst, stream)
+			if ierr != nil && lx.Classify(ierr) == "ENGINE" {
+				r.EngineError(fmt.Sprintf("C14 reused-reference import %+v: %v", cs, ierr))
+				return
+			}
+			w2 := world.Attach(pgc)
+			defer w2.Close()
+			c2, err := w2.Sys.GetLedgerController(ctx, dstName)
+			if err != nil {
+				r.EngineError(err.Error())
+				return
+			}
+			logs, err := lx.ListLogs(ctx, c2)
+			if err != nil {
+				r.EngineError(err.Error())
+				return
+			}
+			txs, err := lx.ListTxs(ctx, c2, storagecommon.ResourceQuery[any]{})
+			if err != nil {
+				r.EngineError(err.Error())
+				return
+			}
+			viol := func(sig, format string, a ...any) {
+				r.Violation(sig, fmt.Sprintf("import into empty %s of a 4-transaction stream in which transaction %d carries the reference %q of transaction %d (result: %v): ", dstName, cs.K+1, refs[cs.J], cs.J+1, ierr)+fmt.Sprintf(format, a...),
+					map[string]any{"kind": "reused-reference-import", "case": cs})
+			}
+			seen := map[string]uint64{}
+			for _, tx := range txs {
+				if tx.Reference == "" {
+					continue
+				}
+				if other, dup := seen[tx.Reference]; dup {
+					viol("C14:import:reference-stored-twice", "transactions %d and %d both carry reference %q", other, *tx.ID, tx.Reference)
+				}
+				seen[tx.Reference] = *tx.ID
+			}
+			if cs.J == cs.K {
+				controls.Add(1)
+				if ierr != nil || len(logs) != len(src) {
+					viol("C14:import:control-rejected", "the unmodified references were refused (%d logs stored)", len(logs))
+				}
+				return
+			}
+			conflicts.Add(1)
+			switch {
+			case ierr == nil:
+				viol("C14:import:reused-reference-accepted", "Import returned nil")
+			case lx.Classify(ierr) != "reference_conflict":
+				viol("C14:import:reused-reference:error-kind:"+lx.Classify(ierr), "the error is not a reference conflict")
+			}
+			if len(logs) != cs.K || len(txs) != cs.K {
+				viol("C14:import:reused-reference:effect", "%d logs and %d transactions stored, expected the %d before the conflicting one", len(logs), len(txs), cs.K)
+			}
+		})
+		if complete && r.ViolationCount() == 0 && (conflicts.Load() == 0 || controls.Load() == 0) {
+			r.EngineError("C14 reused-reference imports: vacuous")
+		}
+		return map[string]any{
+			"kind":           "imports of a stream in which a transaction reuses an earlier reference",
+			"streams":        len(cases),
+			"conflict_cases": conflicts.Load(),
+			"control_cases":  controls.Load(),
+			"rule":           "export of 4 transactions with references r1, r2, (none), r4; for every k and every earlier j with a reference, transaction k re-sent with j's reference (hashes re-chained), plus the unmodified stream as control, into an empty ledger with HASH_LOGS SYNC and DISABLED; oracle: the import fails at log k with a reference conflict, exactly the k-1 logs before it are stored, no reference is stored twice",
+		}, complete
+	}
 }
